@@ -256,7 +256,7 @@ def run(ctx):
 
 
 META = {
-    "technique": "lock typestate over the CFGs of the ring and settings functions in the `sharable` configuration variant (path-sensitive on the bool flag `threadLock`), held-state queries for writes to ring state, critical-section span checks for check-then-act and counter updates",
+    "technique": "lock typestate over the CFGs of the ring and settings functions in the `sharable` configuration variant (two scenarios analysed separately: threadLock true with the mutex free at entry, threadLock false with the caller holding it), held-state queries for writes to ring state, critical-section span checks for check-then-act and counter updates",
     "level": "Static decision, in the only configuration where it matters and which no test builds, that every lock is released exactly by the path that took it (flag-sensitively) and ring state is only written while held; and an exact "
              "inventory of the places where the property is violated by design of the current code - the reference drop / needsFree / delete sequences of all six handle classes and of buffer slices, the unsynchronised allocation counters, "
              "and settings() - each recorded as a known finding by function so that any NEW unprotected access, unbalanced path or additional racy site is reported as a violation.",
